@@ -2,6 +2,8 @@ import Tengo.Props.C03Sim
 import Tengo.Props.C03VM
 import Tengo.Props.C03Univ
 import Tengo.Proofs.C03Twin
+import Tengo.Props.C03Source
+import Tengo.Proofs.C03SourceLit
 /-! C03: the optimizer-model theorems (`C03`, `C03Sim`) and the whole-VM theorems about a passed
 relocation check (`C03VM`), and the universal theorem that the optimizer model's output always passes
 that check against the unoptimized twin (`C03Univ`), as one module for the checker. -/
